@@ -74,9 +74,10 @@ def run(chk):
             # voting threads
             nb, nsc, big = 2, 12, ["--nv", 1 + (i // 8) % 2]
         if i % 8 in (2, 7):
-            # batches over disjoint scene sets submitted back to back while a second thread retrieves (2: BatchSort,
-            # 7: BatchVisualSort): a batch waits for the previous one whatever scenes it carries
-            big = ["--pattern", "aba"]
+            # batches submitted back to back while a second thread retrieves (2: BatchSort, 7: BatchVisualSort), over the
+            # same scenes ("aaa") or over disjoint scene sets ("aba"): a batch waits for the previous one whatever scenes
+            # it carries, and sees the store as the previous batch left it
+            big = ["--pattern", ("aaa", "aba")[(i // 8) % 2]] + (["--slow-voters-us", "4000"] if (i // 8) % 2 == 0 else [])
         ok = vlib.run_recorder(chk, [vlib.VH, "record", "batch", "--kind", kind, "--seed", chk.seed * 100000 + i, "--batches", nb,
                                      "--scenes", nsc, "--delay-us", dly, "--out", trace] + big
                                + (["--getter", "1"] if i % 4 >= 2 else []), "batch:record", timeout=300)
@@ -153,6 +154,22 @@ def run(chk):
             chk.cov["evaluations"] += 1
             if not ok:
                 chk.violation("c06:batch-differs-from-simple", {"engine": "pairing", "a": str(a), "b": str(b), "rejected": rej[:2000]})
+    # ... with appearance features (weights are discrete, ties occur, so the two recordings are not compared with one
+    # another): each is validated by TLC against VisualTrace.tla; a BatchVisualSort run that is rejected while the
+    # VisualSort run of the same history is accepted is a batch tracker that does not refine the simple one
+    bt, st = [], []
+    for i in range(2 if quick else 16):
+        seed = chk.seed * 1000 + 650 + i
+        kw = dict(vis_kind=("euclid", "cosine")[i % 2], min_votes=1 + i % 2, min_track_len=(2, 1, 3)[i % 3], max_obs=(3, 2, 5)[i % 3],
+                  metric=("iou", "maha")[(i // 2) % 2], steps=150, shards=1 + i % 3, objects=4, spread=(90, 120)[i % 2],
+                  extra=["--no-lifecycle", "1", "--skip-empty", "1"])
+        bt.append(r2.record_visual(chk, f"c06-vbatch-{i}", "batchvisual", seed, **kw))
+        st.append(r2.record_visual(chk, f"c06-vsimple-{i}", "visual", seed, **kw))
+    rb, rs = r2.validate_visual_each(chk, bt), r2.validate_visual_each(chk, st)
+    for i, ((okb, why, rej, _), (oks, _, _, _)) in enumerate(zip(rb, rs)):
+        chk.cov["evaluations"] += 1
+        if oks and not okb:
+            chk.violation(f"c06:batch-visual-differs-from-simple:{'+'.join(sorted(why))}", {"engine": "r2v-trace", "trace": str(bt[i]), "rejected": rej[:3000]})
     # VisualSORT batches with own-area gates (shares are computed per scene inside the batch loop): the batch tracker
     # against the simple tracker on the same behaviours
     vkw = dict(depth=5, Sim=12, OwnUse=50, OwnCollect=50, Kind="batch", Scenes={1, 2}, Slots={1, 2}, Confs={900, 800}, Feats={1}, Quals={90}, MaxDets=2)
@@ -174,7 +191,18 @@ def run(chk):
     chk.finish(RULE, exhaustive=False)
 
 
+def replay_v(payload):
+    return r2_replay_visual(payload)
+
+
+def r2_replay_visual(payload):
+    from checks import r2_common as r2
+    return r2.replay_visual_trace("C06", payload)
+
+
 def replay(payload):
+    if payload.get("engine") == "r2v-trace":
+        return r2_replay_visual(payload)
     if payload.get("engine") == "batch-trace":
         ok, r, rej = vlib.validate_trace(B / "BatchTrace.tla", B / "trace.cfg", payload["trace"], "replay", vlib.WORK / "C06")
         print("accepted" if ok else f"VIOLATION property=C06 replay=  # {rej[:200]}")
